@@ -230,9 +230,9 @@ package server
 //@ func (*BgpServer).processRTCMembership$2
 //@   claims at-call
 // (the list handed to the peer in the withdraw branch is built by these appends alone)
-//@   at-call ^append(withdrawn, p) requires !peer.interestedIn(p)
+//@   at-call ^append(withdrawn, w) requires !peer.interestedIn(p)
 // ... and what is handed to the peer in that branch is a withdrawal (the wildcard scan yields the routes themselves)
-//@   at-call ^append(withdrawn, p) requires p.IsWithdraw
+//@   at-call ^append(withdrawn, w) requires w.IsWithdraw
 //@   at-call ^peer.updateRoutes(withdrawn...) requires path.IsWithdraw
 //@   at-call ^sendfsmOutgoingMsg(peer, withdrawn) requires called(updateRoutes)
 
